@@ -110,7 +110,7 @@ def _work(chunk):
             bf = ByteFlow.from_bytecode(tag)
             scfg, how = bf.scfg, "byteflow"
         else:
-            scfg, how, bf = export.mk_scfg(succ), "scfg", None
+            scfg, how, bf = export.mk_scfg(succ, declare_backedges=(tag == "declared-backedges")), "scfg", None
         for stage, op in (("input", None), ("closed", "join_returns"), ("loop", "restructure_loop"), ("branch", "restructure_branch")):
             if op is not None:
                 try:
@@ -136,6 +136,32 @@ def run(ctx):
     inputs = [x for x in gen.graph_inputs(ctx["tier"], ctx["seed"]) if len(x[1]) <= 14]
     if ctx["tier"] == "quick":
         inputs = inputs[::3]
+    # graphs as the YAML/dict front end delivers them: with declared back edges, endless loops and
+    # latches whose only successor is a back edge included (random digraphs, not only closed CFGs)
+    import random
+    rng = random.Random(ctx["seed"] + 17)
+    declared = [("declared-backedges", s) for _, s in inputs[::4] if any(s)]
+    want = 150 if ctx["tier"] == "quick" else 3000
+    for _ in range(want * 40):
+        if want <= 0:
+            break
+        n = rng.randint(2, 8)
+        s = [sorted(rng.sample(range(n), rng.choice([0, 1, 1, 1, 2, 2]))) for _ in range(n)]
+        # a control-flow graph: node 0 is the only block without a (non-back-edge) predecessor
+        # and every block is reachable from it
+        be = export.dfs_backedges(s)
+        preds = {w for v in range(n) for w in s[v] if (v, w) not in be}
+        seen, st = {0}, [0]
+        while st:
+            for w in s[st.pop()]:
+                if w not in seen:
+                    seen.add(w)
+                    st.append(w)
+        if len(seen) == n and preds == set(range(1, n)):
+            declared.append(("declared-backedges", s))
+            want -= 1
+    declared += [("declared-backedges", s) for s in ([[1], [2], [1]], [[1], [1]], [[0]], [[1], [2, 3], [1], []], [[1], [2], [3], [1, 2]])]
+    inputs += declared
     inputs += [(gfun, None), (gfun2, None)]
     nproc = common.ncpu()
     size = max(20, min(500, len(inputs) // (nproc * 4) + 1))
@@ -157,7 +183,7 @@ def run(ctx):
     cov = {"programs": len(inputs), "disagreements_checked": len(fails),
            "samples": [{"input_succ": [list(s) for s in inputs[len(inputs) // 3][1]]}],
            "evaluations": n, "distinct_nontrivial": len(inputs),
-           "rule": "closed CFGs as for C01 (≤14 nodes, every third in the quick tier) + two bytecode functions through ByteFlowRenderer; "
+           "rule": "closed CFGs as for C01 (≤14 nodes, every third in the quick tier) + the same and random CFGs (≤8 nodes, endless loops included) with their depth-first back arcs declared, as the YAML/dict front end allows + two bytecode functions through ByteFlowRenderer; "
                    "rendered before and after every stage; DOT parsed by harness/dot.py",
            "drawings_checked": n, "failures_by_kind": {f"{k[0]}:{k[1]}": len(v) for k, v in by.items()}}
     return {"level": LEVEL, "coverage": cov, "violations": violations,
